@@ -23,3 +23,19 @@ PROPS = {
         ],
     },
 }
+
+PROPS["C01"] = {
+    "level": "exploration",
+    "units": [
+        {"name": "c01-envelopes", "pkg": SECRETSTORE, "run": "TestVerifC01", "timeout": {"quick": 600, "thorough": 2400}},
+        {"name": "c01-envelopes-race", "pkg": SECRETSTORE, "run": "TestVerifC01Race", "race": True, "tiers": ("thorough",),
+         "race_anchors": ["pkg/secretstore/secret_store_messages.go", "pkg/secretstore/secret_store.go"],
+         "timeout": {"quick": 600, "thorough": 1200}},
+    ],
+}
+PROPS["C02"] = {
+    "level": "exploration",
+    "units": [
+        {"name": "c02-ratchet", "pkg": SECRETSTORE, "run": "TestVerifC02", "timeout": {"quick": 600, "thorough": 3000}},
+    ],
+}
